@@ -2646,6 +2646,22 @@ def emit_fn_text(unit, rel, path, fn_id, text, line0, end_line, dlines, tmpl_whe
     log = []
     if selfmut:
         sig = rule_selfmut(sig, log)
+    # R37: `fn f(mut self, ..) { B }` -> `fn f(self, ..) { let mut vx_self = self; B[self := vx_self] }`
+    # (a `mut` binding of a by-value parameter is a local variable initialised with the argument)
+    if has_body and re.search(r'\(\s*mut\s+self\s*[,)]', sig):
+        sig = re.sub(r'\(\s*mut\s+self(\s*[,)])', r'(self\1', sig, count=1)
+        bm = code_mask(body)
+        pieces = []
+        last = 0
+        for m_ in re.finditer(r'(?<![\w])self\b', body):
+            if bm[m_.start()]:
+                pieces.append(body[last:m_.start()])
+                pieces.append('vx_self')
+                last = m_.end()
+        pieces.append(body[last:])
+        body = ''.join(pieces)
+        body = body[:1] + ' let mut vx_self = self;' + body[1:]
+        log.append(('R37', 'mut self', 'self; let mut vx_self = self;'))
     for sec in sections:
         if sec[0] == 'sigsub':
             a, b = sec[1]
